@@ -268,6 +268,19 @@ def check_cusparse_exec(res, model, scripts):
                           dict(case, finding="C19-cusparse-ignores-failure") if first_fails and calls == 1 else case)
         if flag != 0 and not any(e != "ok" for e in cs):
             res.violation("oracle", f"cusparse (executed): no integrator failure, yet Solve returns {flag}", case)
+    # batches: every system of a batch is handed to the integrator and copied back (success script)
+    for nsys in (2, 3, 7, 64):
+        case = {"kind": "c19", "method": "cusparse", "script": "", "dt": 100.0, "y0": 5.0, "nsystem": nsys}
+        out = run_bin(exe, d, "", repr(100.0), repr(5.0), nsys)
+        if len(out) != 9 or out[0] != "batch":
+            res.corr_disagreements += 1
+            res.violation("correspondence", f"cusparse: batch run of {nsys} systems produced {out}", case)
+            continue
+        lo, hi, flag = float(out[1]), float(out[2]), int(out[3])
+        res.count("method=cusparse (executed, batch)")
+        if flag != 0 or abs(lo - 105.0) > 1e-9 or abs(hi - 105.0) > 1e-9:
+            res.violation("oracle", f"cusparse (executed): a batch of {nsys} systems, no integrator failure: Solve returns {flag} and the final states range over "
+                                    f"[{lo!r}, {hi!r}], every one should have advanced from 5.0 by 100.0", case)
     ol.cleanup_scratch()
 
 
